@@ -10,6 +10,7 @@ import OciModel.Driver.Listing
 import OciModel.Driver.Select
 import OciModel.Driver.Sub
 import OciModel.Driver.WrapRO
+import OciModel.Driver.AuthFile
 
 structure DState where
   scopes : OciModel.Driver.Scope.Regs := []
@@ -17,6 +18,7 @@ structure DState where
   up : OciModel.Driver.Upload.UState := {}
   sub : OciModel.Driver.Sub.SubState := {}
   wrap : OciModel.Driver.WrapRO.WrapState := {}
+  authfile : OciModel.Driver.AuthFile.St := {}
 
 /-- One line in, one line out. The first token names the engine. -/
 def step (st : DState) (line : String) : DState × String :=
@@ -28,6 +30,9 @@ def step (st : DState) (line : String) : DState × String :=
     let (m, out) := OciModel.Driver.Mem.drive st.mem rest
     ({ st with mem := m }, out)
   | "srv" :: _ => (st, "skip")
+  | "authfile" :: rest =>
+    let (a, out) := OciModel.Driver.AuthFile.drive st.authfile rest
+    ({ st with authfile := a }, out)
   | "ac" :: rest => (st, OciModel.Driver.Select.drive "ac" rest)
   | "sel" :: rest => (st, OciModel.Driver.Select.drive "sel" rest)
   | "sub" :: rest =>
